@@ -191,9 +191,32 @@ def run(ck):
                 if problem:
                     ck.violation("order:" + problem.split(" ")[0], "graph %s, files in order %s: %s" % (spec, order, problem), files, se[-1500:])
 
+        # ---- a library that contributes only a published enum, which another library's database also records (fully defined, not global) ----
+        ten = lay.enums["type"]
+        FDm, GLm, ENm = ten["F_fully_defined"], ten["F_global"], ten["F_enum"]
+        dbm = realise(lay, "libmodes", [], with_function=False)
+        dbm["type"] = [(i, dict(r, _name=b"Mode", _scoped_name=b"Mode", _true_name=b"Mode", _flags=FDm | GLm | ENm)) for i, r in dbm["type"]]
+        dbs = realise(lay, "libshapes", [])
+        nxt = max(i for k in dbgen.KINDS for i, _ in dbs[k]) + 1
+        dbs["type"].append((nxt, dict(dbm["type"][0][1], _flags=FDm | ENm)))
+        pm, ps = wd / "libmodes.in", wd / "libshapes.in"
+        pm.write_bytes(dbgen.enc_file(lay, dbm))
+        ps.write_bytes(dbgen.enc_file(lay, dbs))
+        for order in ([pm, ps], [ps, pm]):
+            out = wd / "modenum.cxx"
+            if out.exists():
+                out.unlink()
+            rc, so, se = iglib.sh([str(bdir / "bin" / "interrogate_module"), "-oc", str(out), "-module", "m", "-library", "l", "-python-native"] + [str(x) for x in order], timeout=30)
+            ck.search_case("order-oracle")
+            text = out.read_text(errors="replace") if out.exists() else ""
+            decl = sorted(re.findall(r"^extern void Dtool_(\w+)_RegisterTypes\(\);", text, re.M))
+            if rc != 0 or decl != ["libmodes", "libshapes"]:
+                ck.violation("order:enum-only-library", "files in order %s: libraries referenced %s (exit %s); libmodes contributes the published enum Mode and libshapes a class, each must be referenced exactly once" % (
+                             [x.name for x in order], decl, rc), {"libmodes.in": pm.read_bytes(), "libshapes.in": ps.read_bytes(),
+                             "cmd.txt": "interrogate_module -oc mod.cxx -module m -library l -python-native %s\n" % " ".join(x.name for x in order)}, se[-1500:])
+
         # ---- a database that fails to load: non-zero exit, no output file ------------------------
         for kind in ("missing", "truncated", "newer"):
-            ck.search_case("load-failure")
             good = wd / "good.in"
             good.write_bytes(dbgen.enc_file(lay, realise(lay, "liba", [])))
             bad = wd / ("bad_%s.in" % kind)
@@ -205,9 +228,18 @@ def run(ck):
             out = wd / "fail.cxx"
             if out.exists():
                 out.unlink()
-            rc, so, se = iglib.sh([str(bdir / "bin" / "interrogate_module"), "-oc", str(out), "-module", "m", "-library", "l", "-python-native", str(good), str(bad)], timeout=30)
-            if rc == 0 or out.exists():
-                ck.violation("load-failure:" + kind, "a %s database: interrogate_module exit status %d, output file %s" % (kind, rc, "left behind" if out.exists() else "absent"),
-                             {"good.in": good.read_bytes(), "bad.in": bad.read_bytes() if bad.exists() else b""}, se[-1500:])
+            good2 = wd / "good2.in"
+            good2.write_bytes(dbgen.enc_file(lay, realise(lay, "libc", [])))
+            for files_in in ([good, bad], [bad, good], [good, bad, good2], [bad, good, good2], [bad]):
+                if out.exists():
+                    out.unlink()
+                ck.search_case("load-failure")
+                rc, so, se = iglib.sh([str(bdir / "bin" / "interrogate_module"), "-oc", str(out), "-module", "m", "-library", "l", "-python-native"] + [str(f) for f in files_in], timeout=30)
+                if rc == 0 or out.exists():
+                    ck.violation("load-failure:" + kind, "a %s database given as %s: interrogate_module exit status %d, output file %s" % (
+                                 kind, " ".join(f.name for f in files_in), rc, "left behind" if out.exists() else "absent"),
+                                 {"good.in": good.read_bytes(), "good2.in": good2.read_bytes(), "bad.in": bad.read_bytes() if bad.exists() else b"",
+                                  "cmd.txt": "interrogate_module -oc fail.cxx -module m -library l -python-native %s\n" % " ".join(f.name for f in files_in)}, se[-1500:])
+                    break
     finally:
         shutil.rmtree(wd, ignore_errors=True)
